@@ -29,6 +29,8 @@ def metaEditFromJson (j : Json) : Except String MetaEdit := do
 def opFromJson (j : Json) : Except String Op := do
   match (← (← j.getObjVal? "op").getStr?) with
   | "slice" => return .slice (← optInt? j "i") (← optInt? j "j")
+  | "sliceStep" => return .sliceStep (← optInt? j "i") (← optInt? j "j") (← jInt? (← j.getObjVal? "k"))
+  | "removeStaticDetails" => return .removeStaticDetails
   | "add" => return .add (← cellsFromJson (← j.getObjVal? "other"))
   | "clip" => return .clip { minEval := ← optDate? j "minEval", maxEval := ← optDate? j "maxEval",
                              minPeriod := ← optDate? j "minPeriod", maxPeriod := ← optDate? j "maxPeriod" }
@@ -61,6 +63,8 @@ def handle (j : Json) : Except String Json := do
     let cmps := ms.map fun a => ms.map fun b => (Metadata.cmp a b == .lt)
     return Json.mkObj [("model", Json.arr (sorted.map Metadata.toJson).toArray),
                        ("lt", Json.arr (cmps.map fun r => Json.arr (r.map Json.bool).toArray).toArray)]
+  | "spec" =>
+    return Json.mkObj [("spec", ← specJson j)]
   | "chain" =>
     let cells ← cellsFromJson (← j.getObjVal? "cells")
     let ops ← (← (← j.getObjVal? "ops").getArr?).toList.mapM opFromJson
